@@ -3,7 +3,13 @@ in the ASan+UBSan build: the outcome is an error / 0, or a dictionary within the
 one non-zero ID reported identically by the four ID queries, with which the samples round-trip; single-threaded runs are repeated (shifted heap)
 and byte-compared.  Model ties: ZDICT_finalizeDictionary's size == Train.finalizeLayout, automatic ID == Train.compliantID(XXH64(content)),
 parameter verdicts == Train.coverParamsOk / fastCoverParamsOk, and the optimisers' result-holder events (COVER_best_t mutex interposed) are
-replayed by the LTS Train.bstep.  Multi-threaded optimiser runs are repeated under ThreadSanitizer."""
+replayed by the LTS Train.bstep.  Multi-threaded optimiser runs are repeated under ThreadSanitizer.
+Stale memory: the two runs of the determinism pair get destinations pre-filled with different bytes and differently filled fresh heap blocks (harness
+zvh_train_fill.h), so a result byte the trainer never wrote shows as a difference.  Directed families: size_varying_ops (optimiser runs whose candidates have
+DIFFERENT dictionary sizes, the better one later and larger: the result holder must grow its buffer) and remainder_ops (capacity = q*k + r for every r in 0..d, every
+direct trainer and single-candidate optimiser run, on corpora whose segments have the full length k), tiny_training_ops (training part around max(d,8) bytes).
+Function-level ties: COVER_computeEpochs == Train.computeEpochs, COVER_ctx_init / FASTCOVER_ctx_init == Train.ctxInit.  One shape is excluded (EXCLUDED in
+harness/zvh_train.c: optimiser, split < 1, training part below max(d,8) bytes - a crash of the unchanged tree); repaired in the tree by fix 3d7351b: the shape runs by default and must give an error code; ZV_C18_EXCLUDE=1 restores the exclusion."""
 import os, re
 import build, zv, frames
 
@@ -14,7 +20,7 @@ ALGOS = ["def", "cover", "fastcover", "optcover", "optfast", "legacy", "finalize
 
 
 def hx(variant="plain"):
-    return build.link("zvh_train", ["zvh_train.c", "zvh_train_cover.c"], variant, exclude=("cover.c",))
+    return build.link("zvh_train", ["zvh_train.c", "zvh_train_cover.c", "zvh_train_fastcover.c", "zvh_train_zdict.c"], variant, exclude=("cover.c", "fastcover.c", "zdict.c"))
 
 
 def gen_op(rng, quick):
@@ -44,6 +50,133 @@ def gen_op(rng, quick):
                                                                               rng.randrange(1 << 30), 1 if threads > 1 and rng.random() < 0.6 else 0, rng.randrange(1 << 30))
 
 
+def _op(algo, cap, k, d, f, accel, steps, split, shrink, threads, spec, seed, perturb=0, dict_id=0, level=3):
+    return "train %s %d %d %d %d %d %d %d %d %d %d %d %s:%d %d %d" % (algo, cap, k, d, f, accel, steps, split, shrink, threads, dict_id, level, spec, seed, perturb, seed % 1000 + 1)
+
+
+def blank_head(cover, cap, nb, ssz, split):
+    """number of leading all-zero records (of exactly ssz bytes) that makes the FIRST candidate of a k search (k = 50) give up early: the build loop stops after
+    maxZeroScoreRun consecutive epochs whose best segment scores 0, and inside a blank stretch every epoch after the first scores 0.  Epoch arithmetic as in
+    COVER_computeEpochs (passes = 4 for cover, 1 for fastCover); the stretch is 1.5 x the run needed (+1 epoch), which the far longer epochs of the larger k
+    values of the same search (>= 10 k positions each) never reach."""
+    train = (nb * split // 100 if split < 100 else nb) * ssz
+    num = max(1, cap // 50 // (4 if cover else 1))
+    size = train // num
+    if size < 500:
+        size = min(500, train); num = max(1, train // size)
+    run = max(10, min(100, num >> 3)) if cover else 10
+    return min((size * (run * 3 // 2 + 2)) // ssz + 1, nb * split // 100 * 3 // 5)
+
+
+def size_varying_ops(rng, quick):
+    """Optimiser runs whose candidates have different dictionary sizes (the best-so-far holder must grow its buffer when a later candidate is better AND larger).
+    (a) blank head: the smallest k stops on zero-score epochs with a few dozen content bytes, the larger k values fill the capacity from a small phrase pool repeated
+        all over a corpus much larger than the capacity (so the full dictionary wins although its size counts against it): later, better, larger by construction;
+    (b) corpus smaller than the capacity: the content collected (hence the size) depends on k and d;
+    (c) cover optimiser with shrinkDict: candidates shrunk to different power-of-two sizes.
+    One and several threads (any arrival order of a larger better candidate after a smaller one needs the growth), both split modes, k and d searched."""
+    ops = []
+    n = 2 if quick else 8
+    for _ in range(n):
+        for algo, caps in (("optfast", (2500, 5000, 5000, 10000)), ("def", (2500, 5000, 10000)), ("optcover", (8000, 10000, 12000, 16000))):
+            for cap in caps:
+                cover = algo == "optcover"
+                nb, ssz = rng.choice([(240, 400), (160, 500), (200, 450)])
+                split = 75 if algo == "def" else rng.choice([75, 100, 50])
+                if cover and split == 50:
+                    split = 75
+                H = blank_head(cover, cap, nb, ssz, split)
+                P = cap * rng.choice([2, 3, 4]) // 128
+                for threads in ((1, 2) if cap == caps[1] else (1,)):
+                    ops.append(_op(algo, cap, 0, rng.choice([8, 6, 0]), rng.choice([16, 12]), rng.choice([1, 1, 3]), rng.choice([1, 2, 3, 4]), split, 0, threads,
+                                   "zero%dp%d:%d:%d" % (H, P, nb, ssz), rng.randrange(1 << 30), perturb=1 if threads > 1 else 0))
+        for algo in ("optfast", "optcover", "def"):
+            for kind, nb, ssz in (("text", 20, 100), ("pool", 40, 300)):
+                ops.append(_op(algo, rng.choice([20000, 110000]), 0, rng.choice([0, 0, 6, 8]), 16, 1, rng.choice([4, 8]), rng.choice([100, 75, 50]), 0, 1, "%s:%d:%d" % (kind, nb, ssz), rng.randrange(1 << 30)))
+        for cap in (2000, 6000, 20000):
+            ops.append(_op("optcover", cap, 0, rng.choice([0, 6, 8]), 0, 0, rng.choice([3, 4, 8]), rng.choice([100, 75]), 1, rng.choice([1, 1, 2]), "%s:%d:%d" % (rng.choice(["text", "pool"]), 150, 400), rng.randrange(1 << 30)))
+    return ops
+
+
+def remainder_ops(rng, quick):
+    """capacity = q*k + r for EVERY r in 0..d: on a corpus rich enough for each selected segment to have the full length k (random bytes; phrase pool; plus the
+    word text, whose segments get trimmed), the build loop of cover / fastCover ends with r bytes of room: exactly filled (r = 0), a too-small rest the trainer must
+    leave out (0 < r < d), a last trimmed segment (r = d).  Direct trainers (they build in the caller's destination) and single-candidate optimiser runs (they build
+    in a fresh heap block), plus ZDICT_trainFromBuffer over 8 consecutive capacities.  The determinism pair differs in the stale bytes of both."""
+    ops = []
+    n = 2 if quick else 8
+    for _ in range(n):
+        for algo in ("fastcover", "cover", "optfast", "optcover"):
+            for d in (6, 8):
+                k = rng.choice([50, 64, 100, 128, 200, 333])
+                q = rng.randrange(2, 9)
+                while q * k < 256:
+                    q += 1
+                kind = rng.choice(["bin", "pool", "pool", "text"])
+                for rem in range(0, d + 1):
+                    ops.append(_op(algo, q * k + rem, k, d, rng.choice([12, 16]), rng.choice([1, 1, 2]), 1, 100 if algo in ("fastcover", "cover") else rng.choice([75, 100]), 0, 1,
+                                   "%s:%d:%d" % (kind, 120, 300), rng.randrange(1 << 30)))
+        base = rng.choice([1000, 2048, 4000])
+        kind = rng.choice(["bin", "pool"])
+        for rem in range(8):
+            ops.append(_op("def", base + rem, 0, 0, 0, 0, 0, 100, 0, 1, "%s:%d:%d" % (kind, 150, 300), rng.randrange(1 << 30)))
+        # the trainers without k / d: the legacy trainer over consecutive capacities; finalizeDictionary / addEntropyTables with the content k bytes long and
+        # capacity - k sweeping the header-size neighbourhood (content dropped / kept / padded)
+        base = rng.choice([600, 1500, 5000])
+        for rem in range(0, 9, 2):
+            ops.append(_op("legacy", base + rem, rng.randrange(12), 0, 0, 0, 0, 100, 0, 1, "text:%d:%d" % (rng.choice([80, 200]), 400), rng.randrange(1 << 30)))
+        for algo in ("finalize", "addent"):
+            k = rng.choice([300, 1000, 3000])
+            for room in rng.sample(range(0, 400), 5):
+                ops.append(_op(algo, k + room, k, 0, 0, 0, 0, 100, 0, 1, "%s:%d:%d" % (rng.choice(["text", "pool", "bin"]), 60, 300), rng.randrange(1 << 30), dict_id=rng.choice([0, 0, 777])))
+    return ops
+
+
+def tiny_training_ops(rng, quick):
+    """Optimiser runs whose TRAINING part (the first nbSamples*splitPoint samples) totals 0..18 bytes while the whole set is large enough to pass the size check:
+    lead<H>x<B> with H = the number of training samples, B = 0..3 bytes each, around the bounds max(d,8) - 1 and max(d,8) (d = 16 for cover).  Those below the
+    bound are the EXCLUDED shape of harness/zvh_train.c (known crash of the unchanged tree: counted, listed in the evidence); the others must behave."""
+    ops = []
+    for algo in ("optfast", "def", "optcover"):
+        for nb, split in ((8, 75), (10, 50), (10, 70), (10, 80), (12, 75), (20, 75), (20, 80), (20, 90)):
+            H = int(nb * ((75 if algo == "def" else split) / 100.0))
+            for B in ((0, 1, 2, 3) if nb == 10 else (1, rng.choice([0, 2, 3]))):
+                d = rng.choice([8, 6, 0]) if algo != "optcover" else rng.choice([8, 6, 0, 16, 16])
+                ops.append(_op(algo, rng.choice([256, 1000, 5000]), rng.choice([0, 0, 16, 50]), d, rng.choice([12, 16]), 1, rng.choice([1, 2, 4]), split, 0, 1,
+                               "lead%dx%d:%d:%d" % (H, B, nb, rng.choice([12, 40, 200])), rng.randrange(1 << 30)))
+    return ops
+
+
+def epochs_ops(rng, quick):
+    """COVER_computeEpochs at function level (defined inputs only: nbDmers >= 1, k >= 1): the small d-mer counts, the k*10 thresholds, capacities below / above k"""
+    ops = []
+    for _ in range(150 if quick else 3000):
+        k = rng.choice([1, 6, 8, 16, 50, 50, 200, 537, 2000, 100000])
+        cap = rng.choice([0, 1, 255, 256, 1000, 5000, 65536, 110000, k, 4 * k, 40 * k + 3])
+        n = rng.choice([1, 2, 7, 9, k, 10 * k - 1, 10 * k, 10 * k + 1, 20 * k, 450000, rng.randrange(1, 3000), rng.randrange(1, 1 << 22), max(1, (cap // k) * 10 * k + rng.randrange(-2, 3))])
+        ops.append("epochs %d %d %d %d" % (cap, n, k, rng.choice([1, 4])))
+    return ops
+
+
+def ctx_ops(rng, quick):
+    """FASTCOVER_ctx_init / COVER_ctx_init at function level: sample counts around the 5-training / 1-test rules, totals and training parts around max(d,8)"""
+    ops = []
+    for which in ("fast", "cover"):       # the grid around training part == max(d,8): H training samples of 0..3 bytes, test samples large enough for the total
+        for d in (6, 8, 16):
+            for nb, split in ((10, 70), (8, 75), (20, 80), (10, 100)):
+                H = int(nb * (split / 100.0)) if split < 100 else nb - 1
+                for B in (0, 1, 2, 3):
+                    ops.append("ctx %s %d %d 12 lead%dx%d:%d:%d:%d" % (which, d, split, H, B, nb, rng.choice([12, 40, 200]), rng.randrange(1 << 30)))
+    for _ in range(120 if quick else 2000):
+        nb = rng.choice([1, 4, 5, 6, 7, 8, 10, 12, 20, 40])
+        split = rng.choice([100, 100, 75, 75, 50, 70, 80, 90, 1])
+        d = rng.choice([6, 8, 8, 16, 300]) if rng.random() < 0.5 else rng.choice([6, 8])
+        H = int(nb * (split / 100.0)) if split < 100 else nb
+        kind = rng.choice(["lead%dx%d" % (H, rng.choice([0, 1, 1, 2, 3])), "lead%dx%d" % (max(0, H - 1), rng.choice([0, 1, 2])), "small", "mixed", "text", "tiny", "empty"])
+        ops.append("ctx %s %d %d 12 %s:%d:%d:%d" % (rng.choice(["fast", "cover"]), d, split, kind, nb, rng.choice([1, 3, 8, 12, 40, 200]), rng.randrange(1 << 30)))
+    return ops
+
+
 def run_each(exe, ops, timeout=900, env=None):
     def work(chunk):
         res = []
@@ -70,8 +203,14 @@ def correspondence(ctx):
     ops = [gen_op(rng, quick) for _ in range(n)]
     ops += ["train finalize 3000 1500 0 0 0 0 100 0 1 0 3 off1024:60:300:11 0 1", "train finalize 3000 2000 0 0 0 0 100 0 1 0 3 off1025:60:300:12 0 1", "train addent 4000 1500 0 0 0 0 100 0 1 0 3 off1024:60:300:13 0 1",
             "train optfast 6000 0 8 16 2 6 75 0 3 0 3 text:300:500:14 1 9", "train optcover 5000 0 8 0 0 4 100 0 2 0 3 text:120:400:15 1 9", "train def 30000 0 0 0 0 0 100 0 1 0 3 text:500:700:16 0 1"]
+    sv_ops = size_varying_ops(rng, quick)
+    rm_ops = remainder_ops(rng, quick)
+    tt_ops = tiny_training_ops(rng, quick)
+    ops += sv_ops + rm_ops + tt_ops
+    sv_set = set(sv_ops)
     res = run_each(hx("san"), ops)
-    stats = dict(ok=0, err=0, zero=0, holders=0, finalize_ties=0, id_ties=0, param_ties=0)
+    stats = dict(ok=0, err=0, zero=0, holders=0, finalize_ties=0, id_ties=0, param_ties=0, excluded=0, grown=0, grown_directed=0)
+    excluded = []
     loads, loadmeta, fins, finmeta, cids, cidmeta, bests, bestmeta, pm, pmeta = [], [], [], [], [], [], [], [], [], []
     for op, (o, crash) in zip(ops, res):
         w = op.split()
@@ -80,10 +219,18 @@ def correspondence(ctx):
         if crash is not None or o is None or o.startswith("res=HANG"):
             ctx.violation("training crashed / sanitizer report / hang: %s -> %s" % (op, (crash or o)[-500:]), dict(kind="monitor", op=op, stderr=crash or o))
             continue
-        m = re.match(r"res=(\S+) loadC=(\S+) loadD=(\S+) ids=(\d+),(\d+),(\d+),(\d+) hsize=(\d+) rt=(\d+)/(\d+) det=(\S+) content=(\d+) ev=(.*?) dict=(\S+)$", o)
+        if o.startswith("res=excluded:"):
+            # the ONE shape the harness answers without calling the library (see EXCLUDED in harness/zvh_train.c): a reported defect of the unchanged tree
+            # (optimiser, split < 1, training part below max(d,8) bytes: SIGFPE / out-of-bounds read); counted and listed in the evidence, never silently dropped
+            stats["excluded"] += 1; excluded.append(op); continue
+        m = re.match(r"res=(\S+) loadC=(\S+) loadD=(\S+) ids=(\d+),(\d+),(\d+),(\d+) hsize=(\d+) rt=(\d+)/(\d+) det=(\S+) content=(\d+) ev=(.*?) dict=(\S+)(?: grow=(\d+) cands=(\d+))?$", o)
         if not m:
             ctx.violation("unparsable harness line: %s" % o[:200], dict(kind="internal", op=op), no_input=True); continue
-        r, lc, ld, i1, i2, i3, i4, hs, rok, rtried, det, chash, evs, dhex = m.groups()
+        r, lc, ld, i1, i2, i3, i4, hs, rok, rtried, det, chash, evs, dhex, grow, cands = m.groups()
+        if grow and int(grow) > 0:
+            stats["grown"] += 1
+            if op in sv_set:
+                stats["grown_directed"] += 1
         if det == "DIFF":
             ctx.violation("single-threaded training is not deterministic: %s" % op, dict(kind="monitor", op=op, result=o[:300]))
         if evs != "-":
@@ -150,13 +297,46 @@ def correspondence(ctx):
             stats["holders"] += 1
         else:
             ctx.violation("the optimiser's result-holder events are not a path of the protocol model: %s -> %s" % (op, v), dict(kind="tie-best-protocol", op=op, verdict=v), no_input=True)
+    # ---- function-level ties: COVER_computeEpochs == Train.computeEpochs; the two ctx_init == Train.ctxInit (d-mer count of the TRAINING part, or srcSize_wrong) ----
+    e_ops = epochs_ops(rng, quick)
+    for op, (o, crash), v in zip(e_ops, run_each(hx("san"), e_ops), drv("train", e_ops)):
+        stats["epoch_ties"] = stats.get("epoch_ties", 0) + 1
+        if crash is not None or (o or "").strip() != v.strip() or v.strip() == "undefined":
+            ctx.violation("COVER_computeEpochs: code %s, model %s: %s" % ((crash or o or "")[-200:], v, op), dict(kind="tie-epochs", op=op, model=v, code=crash or o))
+    c_ops = ctx_ops(rng, quick)
+    c_res = run_each(hx("san"), c_ops)
+    c_lines, c_meta = [], []
+    for op, (o, crash) in zip(c_ops, c_res):
+        m = re.match(r"ctx res=(\S+) n=(\d+) total=(\d+) train=(\d+) nbTrain=(\d+) nbTest=(\d+)$", o or "")
+        if crash is not None or not m:
+            ctx.violation("context initialisation crashed / sanitizer report: %s -> %s" % (op, (crash or o or "")[-400:]), dict(kind="monitor", op=op, stderr=crash or o)); continue
+        if m.group(1) == "excluded":
+            stats["excluded"] += 1; excluded.append(op); continue
+        d = int(op.split()[2])
+        c_lines.append("ctxinit %s %s %s %s %d" % (m.group(3), m.group(4), m.group(5), m.group(6), d)); c_meta.append((op, m, d))
+    for (op, m, d), v in zip(c_meta, drv("train", c_lines)):
+        stats["ctx_ties"] = stats.get("ctx_ties", 0) + 1
+        code = "ok %s" % m.group(2) if m.group(1) == "ok" else "err"
+        if code == v.strip() and (code != "err" or m.group(1) == "err:srcSize_wrong"):
+            continue
+        total, train, nbTrain, nbTest, split = int(m.group(3)), int(m.group(4)), int(m.group(5)), int(m.group(6)), int(op.split()[3])
+        if os.environ.get("ZV_C18_EXCLUDE") and v.strip() == "err" and m.group(1) == "ok" and split < 100 and train < max(d, 8) <= total and nbTrain >= 5 and nbTest >= 1 and int(m.group(2)) == (train - max(d, 8) + 1) % (1 << 64):
+            # the EXCLUDED shape (harness/zvh_train.c) at function level: the context is accepted with 0 / a wrapped-around number of d-mers because the size check
+            # looks at the whole sample set instead of the training part - the reported defect of the unchanged tree; counted, listed, not tolerated for anything else
+            stats["excluded"] += 1; excluded.append(op); continue
+        ctx.violation("ctx_init: code answers %s (%s d-mers), the model %s: %s" % (m.group(1), m.group(2), v.strip(), op), dict(kind="tie-ctx-init", op=op, model=v, code=o))
     # ---- ThreadSanitizer on multi-threaded optimiser runs ----
     tops = [o for o in ops if o.split()[1] in ("optcover", "optfast", "def") and int(o.split()[10]) > 1][: (6 if quick else 150)]
     env = dict(os.environ, TSAN_OPTIONS="halt_on_error=1")
     for op, (o, crash) in zip(tops, run_each(hx("tsan"), tops, timeout=1500, env=env)):
         if crash is not None and ("ThreadSanitizer" in crash or "exit -" in crash):
             ctx.violation("ThreadSanitizer / crash in the TSan build: %s -> %s" % (op, crash[-400:]), dict(kind="monitor-tsan", op=op, stderr=crash))
-    return dict(evaluations=len(ops) + len(tops), distinct_nontrivial=len(set(ops)),
+    if excluded:
+        ctx.notes.append("%d operation(s) of the excluded shape (optimiser with split < 1 and a training part below max(d,8) bytes: known crash of the unchanged tree, see harness/zvh_train.c) were not run: %s" % (len(excluded), excluded[:5]))
+    if stats["grown_directed"] == 0:
+        ctx.notes.append("none of the %d size-varying optimiser runs made the result holder grow its buffer: the directed family no longer reaches that case" % len(sv_ops))
+    return dict(excluded_known_crash_shape=stats["excluded"], size_varying_runs=len(sv_ops), holder_buffer_regrowths=stats["grown"], holder_buffer_regrowths_directed=stats["grown_directed"], remainder_sweep_runs=len(rm_ops), tiny_training_part_runs=len(tt_ops), epochs_ties=stats.get('epoch_ties', 0), ctx_init_ties=stats.get('ctx_ties', 0),
+                evaluations=len(ops) + len(tops) + len(e_ops) + len(c_ops), distinct_nontrivial=len(set(ops)) + len(set(e_ops)) + len(set(c_ops)),
                 rule="one evaluation = one training call (x2 when single-threaded, for determinism) on a generated sample set; distinct = distinct op lines",
                 samples=[dict(op=ops[0], result=(res[0][0] or "")[:200])], outcomes=dict(ok=stats["ok"], error=stats["err"], zero=stats["zero"]),
                 result_holder_traces_accepted=stats["holders"], finalize_layout_ties=stats["finalize_ties"], id_rule_ties=stats["id_ties"], parameter_verdict_ties=stats["param_ties"], lean_loader_checks=len(loads), tsan_runs=len(tops))
